@@ -11,6 +11,7 @@ every writer is checked by the flow rules of this module), bounded (a counter bo
 be a recorded finding. Anything else is a violation: that is how a deleted guard or a new unchecked index shows
 up. Loops: the RNG retry loops of channel selection are listed with the invariant that makes their exit
 satisfiable and the writers of that invariant are checked (validate-before-write)."""
+import os
 import re
 from ..runner import Result, CheckError
 from .. import absint_run, rules, flow
@@ -569,6 +570,91 @@ def tables_const(c, name):
     return None
 
 
+# ---- thorough tier: the feature-gated code of the all-features build (multicast, certification, serde)
+FEATURE_ENTRY = re.compile(r'^<?lorawan_device::mac::(multicast|certification)::|^lorawan_device::mac::<impl core::convert::From<lorawan_device::mac::Response> for|'
+                           r'^lorawan_device::mac::session::Session::handle_rx$|^lorawan_device::mac::Mac::(multicast_setup_send|certification_setup_send)$')
+FEATURE_SITE = re.compile(r'multicast|certification|From<lorawan_device::mac::Response> for|From<mac::Response> for')
+FEATURE_TABLE = [
+    # (regex on the obligation key, class, reason)
+    (r'certification::EchoIncPayloadAnsCreator::payload:slice:range index', 'invariant:mac-payload-le-250',
+     'the echoed payload is the FRMPayload of an accepted frame minus the CID: frames longer than max_payload_len + 5 are dropped before the MIC check, every regional max MAC payload is <= 250 '
+     '(const table rule below), so FRMPayload <= 242 and the payload <= 241 fits data[1..=241]'),
+    (r'multicast::group_status::McGroupStatusAnsCreator::(push:bounds:index|build:slice:range index)', 'bounded',
+     'one creator per McGroupStatusReq, one push per multicast session: at most MAX_GROUPS = 4 items of 5 bytes in the 22-byte buffer (the loop runs over the fixed array of sessions)'),
+    (r'multicast::Multicast::handle_setup_message:overflow:Add', 'bounded', 'nb_total_groups counts the entries of the fixed [Option<Session>; 4] array'),
+    (r'multicast::Multicast::handle_setup_message:unwrap:Option::unwrap', 'bounded', 'mc_k_e_key.as_ref().unwrap() directly after the is_none() early return'),
+    (r'multicast::Multicast::handle_rx:unwrap:Result::unwrap', 'bounded',
+     'decrypt_in_place with both keys after a successful validate_mic on the same bytes; FRMPayload <= 256 fits Vec<u8, 256> (same pattern as Session::handle_rx)'),
+    (r'certification::Certification::setup_send:unwrap:Option::unwrap', 'undecided:result-state-correlation',
+     'NOT DECIDED: pending_uplink is Some whenever the UplinkPrepared response that triggers certification_setup_send was returned (set in the same arm of handle_message); '
+     'the correlation between a response value and a field is not expressible in the abstract domain'),
+    (r'From<(lorawan_device::)?mac::multicast::Response> for (lorawan_device::)?async_device::MulticastResponse>::from:panic:', 'undecided:result-state-correlation',
+     'NOT DECIDED: the panicking arm needs a multicast response other than NewSession / SessionExpired / DownlinkReceived; handle_mac_response only lets those three through (is_for_async_mc_response)'),
+    (r'From<(lorawan_device::)?mac::Response> for (lorawan_device::)?async_device::ListenResponse>::from:panic:', 'undecided:result-state-correlation',
+     'NOT DECIDED: as for the Join/Send conversions of the default build (responses filtered by handle_mac_response and the MAC state)'),
+]
+
+
+def feature_build(res, default_keys):
+    """the panic-capable sites that only exist in the all-features build of lorawan-device: the feature modules
+    (mac::multicast, mac::certification), the Response conversions and the extra arms of Session::handle_rx, analysed from
+    their own entry points with all inputs unconstrained. Sites of the default build are judged by the main run."""
+    os.environ['LRS_CONFIG_OVERRIDE'] = 'dev-full'
+    try:
+        cf = ctx('ws')
+    finally:
+        del os.environ['LRS_CONFIG_OVERRIDE']
+    prog = cf.prog
+    # the feature modules plus the MAC-level entry points of the main run (they establish the type invariants and give
+    # Session::handle_rx its calling contexts); the two front-ends are left to the main run
+    mac_level = re.compile(r'^lorawan_device::(mac::Mac::|mac::session::Session::|mac::otaa::Otaa::|mac::uplink::Uplink::|region::Configuration::|radio::RadioBuffer::|radio::TxConfig::|mac::RxWindows::)')
+    ents = [b for p, bs in sorted(prog.by_short.items()) for b in bs if (FEATURE_ENTRY.search(p) or mac_level.search(p)) and b.stage != 'promoted' and not b.coroutine and '{closure' not in p
+            and not any(re.search(pat, p) for pat, _ in ENTRY_EXCLUSIONS)]
+    if len(ents) < 20:
+        raise CheckError('floor: feature-module entry points %d < 20' % len(ents))
+    an, inv, skipped = absint_run.run_passes(prog, ents, {'lorawan_device', 'lorawan', 'lora_modulation'}, max_depth=6, log=lambda x: None, subsume=True, jobs=16,
+                                             setup=lambda a: a.boundary_traits.update(BOUNDARY))
+    obl = an.finalize_obligations()
+    n = n_ok = 0
+    classes = {}
+    for o in sorted(obl, key=lambda o: o.key()):
+        k = o.key()
+        if not (FEATURE_SITE.search(k) or (o.fn, o.kind, o.desc, str(o.span)) not in default_keys):
+            continue
+        n += 1
+        if not o.bad:
+            n_ok += 1
+            res.ok('OBLIGATION(%s)' % o.kind, '%s discharged in %d context(s) [all-features build]' % (k, o.ok))
+            continue
+        cls, why = classify_site(o)
+        if cls is None and delegated(o):
+            continue
+        if cls is None:
+            for pat, c2, why2 in FEATURE_TABLE:
+                if re.search(pat, k):
+                    cls, why = c2, why2
+                    break
+        if cls is None:
+            key = 'C04:%s:%s:%s#%d' % (short(o.fn), o.kind, o.desc, o.ord)
+            res.violation(key, 'panic-capable site of the all-features build (multicast / certification code) is neither discharged nor classified: %s (%s) context %s' % (
+                o.kind + ' ' + o.desc, (o.detail or {}).get('why'), [x.split('::')[-1] for x in (o.detail or {}).get('context', [])][:4]), '%s (%s)' % (o.fn, o.span), 'OBLIGATION(%s)' % o.kind)
+        else:
+            classes.setdefault(cls, []).append({'site': k, 'why': why})
+            res.ok('CLASSIFIED(%s)' % cls, '%s: %s [all-features build]' % (k, why))
+    if n < 60:
+        raise CheckError('floor: feature-build obligations %d < 60' % n)
+    # const-table rule behind invariant:mac-payload-le-250
+    from .. import tables
+    worst = 0
+    for r in tables.regions(prog):
+        for d in tables.datarates(prog, r):
+            if isinstance(d, dict):
+                worst = max(worst, d.get('max_mac_payload_size') or 0, d.get('max_mac_payload_size_with_dwell_time') or 0)
+    res.require(0 < worst <= 250, 'C04:const:max-mac-payload', 'a regional data rate allows a MAC payload of %d bytes (> 250): FRMPayload-sized buffers of the certification answers no longer fit' % worst,
+                'region data-rate tables', 'CONST-TABLE(max MAC payload <= 250)', instance='every regional data rate: max MAC payload <= 250 (largest %d) [all-features build]' % worst)
+    res.coverage['all_features_build'] = {'config': cf.info, 'entries': len(ents), 'obligations': n, 'discharged': n_ok, 'classified': classes}
+
+
 def run(tier):
     res = Result(PID)
     c = ctx('ws')
@@ -620,6 +706,8 @@ def run(tier):
                          'loops_analysed': sum(len(v) for v in an.loops.values()),
                          'unmodelled_external_calls': dict(sorted(an.havoc_log.items(), key=lambda x: -x[1])[:20]), 'configs': [c.info]})
     flow_rules(c, res, an)
+    if tier == 'thorough':
+        feature_build(res, {(o.fn, o.kind, o.desc, str(o.span)) for o in obl})
     res.samples = [{'obligation': o.key(), 'contexts_discharged': o.ok} for o in obl[:5]]
     res.explanation = __doc__
     res.assumptions = ['classified sites are assumptions of the stated class (see coverage.classified); invariants are checked by flow rules where stated',
